@@ -26,8 +26,8 @@ impl Property for C15 {
     }
     fn config(&self, tier: Tier) -> PropConfig {
         match tier {
-            Tier::Quick => PropConfig { cases: 2_400, max_tape: 120, shards: 8 },
-            Tier::Thorough => PropConfig { cases: 60_000, max_tape: 200, shards: 16 },
+            Tier::Quick => PropConfig { cases: 10000, max_tape: 120, shards: 12 },
+            Tier::Thorough => PropConfig { cases: 160000, max_tape: 200, shards: 16 },
         }
     }
     fn run_case(&self, reg: &Registry, shape: usize, tape: &[u8], st: &mut Stats) -> CaseResult {
